@@ -51,6 +51,8 @@ type hconn struct {
 	ename        string
 	dDone, aDone bool
 	dCC, aCC     bool
+	dCancelled   bool // CancelRead was called on the dialling end
+	aCancelled   bool
 }
 
 type hrun struct {
@@ -501,6 +503,57 @@ func (h *hrun) opConnClose(c *hconn, dialler, cc bool) {
 	h.do(fmt.Sprintf("%s %d %s", name, c.id, CoqBool(dialler)), true, fmt.Sprintf("%s(conn#%d dialler=%v)", name, c.id, dialler))
 }
 
+// opStreamOp: the other exported methods of Conn; none of them may change what a later Close or
+// CloseConnection releases
+func (h *hrun) opStreamOp(c *hconn, dialler bool) {
+	side := c.a
+	if dialler {
+		side = c.d
+	}
+	kind := []string{"CancelRead", "CancelRead", "SetDeadline(past)", "SetReadDeadline(past)", "SetWriteDeadline(past)", "SetDeadline(zero)", "Write", "Read"}[h.r.Intn(8)]
+	switch kind {
+	case "CancelRead":
+		side.CancelRead()
+		if dialler {
+			c.dCancelled = true
+		} else {
+			c.aCancelled = true
+		}
+	case "SetDeadline(past)":
+		_ = side.SetDeadline(time.Now().Add(-time.Second))
+	case "SetReadDeadline(past)":
+		_ = side.SetReadDeadline(time.Now().Add(-time.Second))
+	case "SetWriteDeadline(past)":
+		_ = side.SetWriteDeadline(time.Now().Add(-time.Second))
+	case "SetDeadline(zero)":
+		_ = side.SetDeadline(time.Time{})
+	case "Write":
+		_ = side.SetWriteDeadline(time.Now().Add(200 * time.Millisecond))
+		_, _ = side.Write([]byte("more"))
+		_ = side.SetWriteDeadline(time.Time{})
+	case "Read":
+		_ = side.SetReadDeadline(time.Now().Add(20 * time.Millisecond))
+		_, _ = side.Read(make([]byte, 16))
+		_ = side.SetReadDeadline(time.Time{})
+	}
+	time.Sleep(5 * time.Millisecond)
+	h.res.hist("streamop:" + kind)
+	h.do(fmt.Sprintf("StreamOp %d %s", c.id, CoqBool(dialler)), true, fmt.Sprintf("%s(conn#%d dialler=%v)", kind, c.id, dialler))
+}
+
+func (h *hrun) opStreamOp2(c *hconn, dialler bool, kind string) {
+	side := c.a
+	if dialler {
+		side = c.d
+		c.dCancelled = true
+	} else {
+		c.aCancelled = true
+	}
+	side.CancelRead()
+	h.res.hist("streamop:" + kind + "-then-peer-close")
+	h.do(fmt.Sprintf("StreamOp %d %s", c.id, CoqBool(dialler)), true, fmt.Sprintf("%s(conn#%d dialler=%v)", kind, c.id, dialler))
+}
+
 func (h *hrun) opPing(node int) {
 	var err error
 	kind := h.r.Intn(3)
@@ -604,6 +657,37 @@ func (h *hrun) checkpoint(final bool) {
 			}
 			h.res.violate(fmt.Sprintf("connection #%d is finished at both ends (%s) and settled, but its ephemeral service %q is still registered on %s", c.id, mode, c.ename, h.names[c.dnode]),
 				"leak:ephemeral-service:"+mode, h.labels)
+		}
+	}
+	// goroutines of connection ends that have called Close/CloseConnection must be gone (their
+	// spawn sites can only hold goroutines of ends that have not): bound from the harness's tables
+	accLive, dialLive, subsLive := 0, 0, 0
+	for _, c := range h.conns {
+		if !c.aDone && !c.lis.closed && h.up[c.lis.node] {
+			accLive++
+		}
+		if h.up[c.dnode] {
+			dialLive++ // clean-up goroutine until the connection ends
+			if !c.dDone {
+				dialLive++ // monitorUnreachable
+				subsLive++
+			}
+		}
+	}
+	for _, u := range h.subs {
+		if !u.fin && !u.sock.closed && h.up[u.sock.node] {
+			subsLive++
+		}
+	}
+	subsLive += accLive
+	for _, x := range []struct {
+		site int
+		max  int
+		what string
+	}{{4, 2 * accLive, "accepted connections not yet closed by the accepting application"}, {5, dialLive, "dialled connections"}, {2, 2 * subsLive, "live subscriptions"}} {
+		if got := b[siteKeys[x.site]]; got > x.max {
+			h.res.violate(fmt.Sprintf("%d goroutines created by %s, but only %d can belong to %s (every other connection end has called Close or CloseConnection)",
+				got, strings.TrimPrefix(siteKeys[x.site], pkgPrefix), x.max, x.what), "leak:connection-goroutines:"+strings.TrimPrefix(siteKeys[x.site], pkgPrefix+"netceptor."), h.labels)
 		}
 	}
 	if final {
@@ -761,16 +845,28 @@ func (h *hrun) history(n int, allowShutdown bool, idx int) {
 					h.opDial(node, "psock", nil, s)
 				}
 			}
-		case x < 84:
+		case x < 82:
 			if c, ok := pick(r, h.conns); ok {
 				h.opConnClose(c, r.Bool(), false)
+			}
+		case x < 84:
+			// the peer stops reading, then this end closes: the stream close reports an error
+			if c, ok := pick(r, h.conns); ok {
+				d := r.Bool()
+				h.opStreamOp2(c, !d, "CancelRead")
+				time.Sleep(30 * time.Millisecond)
+				h.opConnClose(c, d, false)
 			}
 		case x < 91:
 			if c, ok := pick(r, h.conns); ok {
 				h.opConnClose(c, r.Bool(), true)
 			}
-		case x < 95:
+		case x < 93:
 			h.opPing(node)
+		case x < 96:
+			if c, ok := pick(r, h.conns); ok {
+				h.opStreamOp(c, r.Bool())
+			}
 		default:
 			if step > 3 {
 				h.checkpoint(false)
